@@ -4,7 +4,7 @@ From ChiaV.Clvm Require Import Sexp Ints.
 From ChiaV.Clvm Require Import TreeHash.
 From ChiaV.Gen Require Import Opcodes Builder.
 From ChiaV.Cond Require Import Model.
-From ChiaV.Bundle Require Import SolutionGen Interned SpendBundle BlockPath SexpProofs SolutionGenProofs AgreeProofs OrderProofs.
+From ChiaV.Bundle Require Import SolutionGen Interned SpendBundle BlockPath SexpProofs SolutionGenProofs AgreeProofs OrderProofs OrderFullProofs.
 From Coq Require Import Permutation.
 Open Scope N_scope.
 
@@ -119,3 +119,46 @@ Theorem C08_oracle_hyps_nonvacuous :
                (forall b, exists e, quote_run p s b = Err e)) /\
   (forall l l' : list (bytes * bytes), Permutation l l' -> (fun _ => true) l = (fun _ => true) l').
 Proof. exact oracle_hyps_inhabited. Qed.
+
+(* (2),(3) COMPLETE for the same bundle: mempool path of b vs block path of ser (build_generator b), under the same flags,
+   constants, keys and oracles: the same accept/reject decision, and on acceptance [agree_full]:
+     - everything of C08_agree_partial (cost_block = cost_mempool + overhead, reserve fee, removal/addition amounts,
+       absolute locks, (key, message) pairs as a Permutation),
+     - the reported spends of the block path are the mempool path's IN REVERSE ORDER, record by record equal up to the two
+       mempool-only flag bits ELIGIBLE_FOR_FF / ELIGIBLE_FOR_DEDUP (coin id, parent, puzzle hash, amount, relative locks,
+       birth assertions, created coins, AGG_SIG lists, HAS_RELATIVE_CONDITION, execution and condition cost),
+     - agg_sig_unsafe as a Permutation, condition_cost equal, execution_cost_block = execution_cost_mempool + 20.
+   Hypotheses: [good_spend] (plain serializations, 32-byte parents, u64 amounts, declared puzzle hash = tree hash for an
+   arbitrary hash function H), the three oracle hypotheses of C08_agree_partial (satisfiable: C08_oracle_hyps_nonvacuous).
+   Stated exclusions: INTERNED_GENERATOR, more than MAX_SPENDS_PER_BLOCK spends, back-reference-compressed generators. *)
+Theorem C08_agree : forall valid_key (H : bytes -> bytes) K run sig_ok cpb fl gen_args,
+  (forall x args budget,
+     run (Pair (Atom [x01]) x) args budget = if budget <? 20 then Err CostExceeded else Ok (20, x)) ->
+  (forall p s, (exists c r, forall b, run p s b = (if b <? c then Err CostExceeded else Ok (c, r))) \/
+               (forall b, exists e, run p s b = Err e)) ->
+  (forall l l', Permutation l l' -> sig_ok l = sig_ok l') ->
+  forall spends g program max_cost,
+  Forall (good_spend H) spends ->
+  bf_interned fl = false ->
+  N.of_nat (length spends) <= MAX_SPENDS_PER_BLOCK ->
+  build_generator spends = Some g -> ser g = Some program ->
+  match mempool_path valid_key H K run sig_ok cpb fl spends max_cost,
+        run_block_generator2 valid_key H K run sig_ok cpb fl gen_args program (nlen program) (max_cost + overhead cpb) with
+  | Ok m, Ok b => agree_full (overhead cpb) b m
+  | Err _, Err _ => True
+  | _, _ => False
+  end.
+Proof. exact agree_full_same. Qed.
+
+(* the mempool path alone, complete: reversing the coin spends reverses the reported spends and changes nothing else *)
+Theorem C08_mempool_order_full : forall vk (H : bytes -> bytes) K run cpb fl,
+  (forall p s, (exists c r, forall b, run p s b = (if b <? c then Err CostExceeded else Ok (c, r))) \/
+               (forall b, exists e, run p s b = Err e)) ->
+  bf_interned fl = false ->
+  forall L max_cost,
+  match run_spendbundle vk H K run cpb fl (rev L) max_cost, run_spendbundle vk H K run cpb fl L max_cost with
+  | Ok r', Ok r => full_eq r' r
+  | Err _, Err _ => True
+  | _, _ => False
+  end.
+Proof. exact mempool_order_full. Qed.
